@@ -190,7 +190,7 @@ func constLit(a *Term) (string, bool) {
 			}
 		}
 	}
-	if strings.HasPrefix(a.S, "err!") { // distinct sentinel constants
+	if strings.HasPrefix(a.S, "sentinel!") || strings.HasPrefix(a.S, "econst!") || a.S == "err_nil" { // distinct sentinel constants, all different from nil
 		return a.S, true
 	}
 	return "", false
